@@ -51,6 +51,9 @@ fn lsp_ops(text: &str, budget: Duration) -> Vec<(String, String)> {
         return res;
     }
     for m in ["textDocument/documentSymbol", "textDocument/inlayHint", "textDocument/references", "textDocument/completion"] {
+        if res.iter().any(|(_, r)| r == "hang") {
+            return res;
+        }
         let p = json!({"textDocument":{"uri":u},"position":{"line":0,"character":0},"range":{"start":{"line":0,"character":0},"end":{"line":100000,"character":0}},"context":{"includeDeclaration":false}});
         res.push((format!("lsp:{}", m), ask(&mut c, m, p).0));
     }
@@ -74,6 +77,9 @@ fn lsp_ops(text: &str, budget: Duration) -> Vec<(String, String)> {
             let (r, _) = ask(&mut c, "textDocument/rename", json!({"textDocument":{"uri":u},"position":{"line":line,"character":ch},"newName":"zz"}));
             note("textDocument/rename", r, &mut worst);
         }
+        if worst.values().any(|v| v == "hang") {
+            break;
+        }
         let (r, acts) = ask(&mut c, "textDocument/codeAction", json!({"textDocument":{"uri":u},"range":{"start":{"line":line,"character":0},"end":{"line":line,"character":0}},"context":{"diagnostics":[]}}));
         note("textDocument/codeAction", r, &mut worst);
         for a in acts.and_then(|v| v.as_array().cloned()).unwrap_or_default() {
@@ -88,6 +94,9 @@ fn lsp_ops(text: &str, budget: Duration) -> Vec<(String, String)> {
     let mut w: Vec<(String, String)> = worst.into_iter().map(|(k, v)| (format!("lsp:{}", k), v)).collect();
     w.sort();
     res.extend(w);
+    if res.iter().any(|(_, r)| r == "hang") {
+        return res;
+    }
     let exit = c.exit_and_join(Duration::from_secs(10));
     res.push(("lsp:exit".to_string(), if exit == Some(true) { "ok".into() } else { "panic".into() }));
     res
@@ -138,11 +147,26 @@ pub fn cmd_run(args: &[String]) -> i32 {
         writeln!(out, "{}", json!({"ev":"Begin","i":i})).unwrap();
         out.flush().unwrap();
         let t0 = Instant::now();
-        let mut ops = lib_ops(&text);
-        ops.extend(lsp_ops(&text, budget));
+        // library-level operations under the same budget: a rendering that never ends must not hang the harness
+        let (tx, rx) = std::sync::mpsc::channel();
+        let t2 = text.clone();
+        std::thread::Builder::new().stack_size(8 * 1024 * 1024).spawn(move || { let _ = tx.send(lib_ops(&t2)); }).unwrap();
+        let mut ops = match rx.recv_timeout(budget) {
+            Ok(o) => o,
+            Err(_) => vec![("graph/database operations".to_string(), "hang".to_string())],
+        };
+        let lib_hung = ops.iter().any(|(_, r)| r == "hang");
+        if !lib_hung {
+            ops.extend(lsp_ops(&text, budget));
+        }
+        let hung = ops.iter().any(|(_, r)| r == "hang");
         let bad: Vec<Value> = ops.iter().filter(|(_, r)| r != "ok").map(|(o, r)| json!([o, r])).collect();
         writeln!(out, "{}", json!({"ev":"Total","i":i,"id":v["id"],"bad":bad,"ops":ops.len(),"ms":t0.elapsed().as_millis() as u64})).unwrap();
         out.flush().unwrap();
+        if hung {
+            // a thread of the code under test is still spinning: leave it behind with this process
+            std::process::exit(3);
+        }
     }
     0
 }
